@@ -28,6 +28,8 @@ func propC12(c *Ctx, r *Report) {
 	r.rule("C12/write-once-ddl", 1, "the rate table's constraints abort a second write")
 	ruleDDLAborts(c, r, cat, "C12/write-once-ddl", []string{"pn_rate"}, "the unchanged plain INSERT in insertRate then replaces (or silently skips) the recorded row instead of failing the block, so rates recorded for a height can change")
 	ruleEveryQuoteRecorded(c, r, "C12/every-quote-recorded")
+	r.rule("C12/returns-combined-list", 2, "the rate combination returns the list it built")
+	ruleReturnsFilteredList(c, r, "C12/returns-combined-list")
 	r.rule("C12/rates-immutable", 3, "pn_rate is insert-only, keyed by (height, token), written from one place")
 	ruleTableWriters(c, cat, r, "C12/rates-immutable", "pn_rate", []writerSpec{{"pegnet.Pegnet.insertRate|pegnet.Pegnet.InsertRates", "INSERT", ""}}, true)
 	uniq := false
